@@ -20,7 +20,7 @@ use subtle::{Choice, CtOption};
 #[cfg(kani)]
 fn no_return() { unsafe { let _ = 255u8.unchecked_add(1); } }
 #[cfg(not(kani))]
-fn no_return() {}
+fn no_return() { crate::src::missed_panic(); }
 
 fn opt<T>(o: CtOption<T>) -> Option<T> { Option::from(o) }
 fn ck<T>(v: T, valid: bool) -> Checked<T> { Checked(CtOption::new(v, Choice::from(valid as u8))) }
